@@ -171,6 +171,7 @@ def get_path(v, path):
         if step[0] == 'f':
             if v[0] == 'tup': v = v[1][step[1]]
             elif v[0] == 'adt': v = v[3][step[1]]
+            elif v[0] == 'closure': v = v[2][step[1]]
             else: raise Unsupported('field of ' + str(v)[:60])
         elif step[0] == 'dc':
             if v[0] != 'adt' or v[2] != step[1]: raise Unsupported('downcast %s of %s' % (step[1], str(v)[:60]))
